@@ -1,14 +1,87 @@
-"""C15 — comment mode settings take effect; matched and unmatched partition the file (run part)."""
+"""C15 — comment mode settings take effect; matched and unmatched partition the file.
+
+Two instances of the technique:
+ (A) spec/Meta.tla gives the documented meaning of an outer comment declaratively (a colon after a
+     word makes a field; its value runs to the next coloned word; a stand-alone colon ends it) and
+     the split comment / scan / match. TLC enumerates every comment over a small alphabet up to a
+     length (plus invariants NoColonNoFields, ValuesStripped, KeysAreWords) and emits the expected
+     fields; each comment is prefixed to a fixed csvpath and parsed for real: metadata must hold
+     exactly the fields, and the scan and match parts must be unchanged.
+ (B) Run.tla: generated csvpaths x combinations of logic-mode, return-mode, unmatched-mode, run-mode,
+     print-mode in the outer comment; traces validated by RunTrace (no-matches inverts the per-line
+     decision, keep partitions the records read into returned/unmatched, no-run reads nothing,
+     print-mode no-default silences standard out only)."""
+import json
+import os
+
 from checks import runfam
+from lib import common, scratch
+from lib.tlc import run_tlc, require_ok, MachineryError
 
 PID = "C15"
-JUDGED = {"returned", "final_returned", "final_unmatched", "k", "extra_event", "missing_event", "raised"}
+JUDGED = {"returned", "final_returned", "final_unmatched", "k", "extra_event", "missing_event", "raised", "final_stdout"}
+MODES = {"logic-mode", "return-mode", "print-mode", "validation-mode", "run-mode", "unmatched-mode", "source-mode", "files-mode", "explain-mode", "transfer-mode"}
+
+
+def _replay(rec):
+    from csvpath import CsvPath
+
+    scratch.scratch_dir() or scratch.enter_scratch()
+    comment = "".join(chr(x) for x in rec["c"])
+    text = f"~{comment}~ $f.csv[1*][ yes() #0 ]"
+    p = CsvPath()
+    try:
+        with scratch.silence():
+            p.parse(text, disposably=True)
+    except Exception as e:
+        return {"kind": "meta", "what": "parse raised", "comment": comment, "raised": f"{type(e).__name__}: {e}"[:200]}
+    exp = {"".join(chr(x) for x in k): "".join(chr(x) for x in v) for k, v in rec["kv"]}
+    got = {k: v for k, v in (p.metadata or {}).items() if k not in ("original_comment", "") and k not in MODES}
+    got = {k: ("" if v is None else v) for k, v in got.items()}
+    bad = []
+    if p.match != "[ yes() #0 ]":
+        bad.append("match part changed")
+    scan = getattr(p, "scan", None)
+    if rec["plain"] and got != exp:
+        bad.append("metadata fields")
+    if comment.strip() and (p.metadata or {}).get("original_comment") != comment.strip():
+        bad.append("original_comment")
+    if bad:
+        return {"kind": "meta", "what": bad, "comment": comment, "expected_fields": exp, "got_fields": got, "match": p.match}
+    return None
+
+
+def meta_part(rep, tier):
+    n = 4 if tier == "quick" else 6
+    name = "_gen_MC_Meta.cfg"
+    with open(os.path.join(common.VERIF, "spec", name), "w") as f:
+        f.write(f"CONSTANTS\n  Alphabet = {{97, 98, 32, 58, 45, 46, 49}}\n  MaxLen = {n}\nINIT Init\nNEXT Next\n"
+                "INVARIANT NoColonNoFields\nINVARIANT ValuesStripped\nINVARIANT KeysAreWords\nINVARIANT Emit\nCHECK_DEADLOCK FALSE\n")
+    res = require_ok(run_tlc("Meta", name, timeout=1500, keep_stdout=False), "MC_Meta")
+    rep.add_tlc(f"Meta: every comment over {{a, b, blank, colon, -, ., 1}} up to length {n}", res)
+    if res.invariant_violated:
+        rep.violation({"kind": "spec", "invariant": res.invariant_violated})
+        return
+    seen = set()
+    recs = []
+    for r in res.records:
+        k = json.dumps(r["c"])
+        if k not in seen:
+            seen.add(k)
+            recs.append(r)
+    bad = common.pmap(_replay, recs, initializer=scratch.enter_scratch)
+    for d in bad:
+        if d is not None:
+            rep.violation(d)
+    rep.extra["comments_replayed"] = len(recs)
+    rep.extra["comments_with_judged_fields"] = sum(1 for r in recs if r["plain"] and r["kv"])
+    rep.evaluations += len(recs)
 
 
 def main(tier):
     n = 600 if tier == "quick" else 10000
-    return runfam.run(PID, tier, groups=("core", "control"), judged=JUDGED, ncases=n, seed_salt=1500,
-                      gen_opts={"modes": True})
+    return runfam.run(PID, tier, groups=("core", "control", "print"), judged=JUDGED, ncases=n, seed_salt=1500,
+                      gen_opts={"modes": True}, pre=lambda rep: meta_part(rep, tier))
 
 
 def replay(path):
